@@ -277,6 +277,8 @@ type Exec struct {
 	harness string
 	splits  map[string]int
 	splitN  map[string]int
+	curIns   ssa.Instruction // the instruction being executed (for diagnostics)
+	exactFmt bool // vxExactFormat(): fmt.Sprintf is modelled exactly where the format is in the model
 	tier    int
 
 	// results of this path
@@ -350,6 +352,7 @@ func (ex *Exec) resetPath(prefix []int) {
 	ex.locks = nil
 	ex.splitIndex = false
 	ex.unwindIsViolation = false
+	ex.exactFmt = false
 	ex.depth = 0
 	ex.maxDepth = 200
 	ex.intMode = false
@@ -369,7 +372,11 @@ func (ex *Exec) resetPath(prefix []int) {
 }
 
 func (ex *Exec) unsupported(format string, a ...interface{}) {
-	panic(&pathAbort{Kind: "unsupported", Msg: fmt.Sprintf(format, a...)})
+	msg := fmt.Sprintf(format, a...)
+	if ex.curIns != nil {
+		msg += " [at " + ex.posOf(ex.curIns) + "]"
+	}
+	panic(&pathAbort{Kind: "unsupported", Msg: msg})
 }
 
 // ---------- memory
@@ -1308,6 +1315,7 @@ func (ex *Exec) runBlock(fr *Frame, b *ssa.BasicBlock, prev *ssa.BasicBlock) (ne
 		}
 	}
 	for _, ins := range b.Instrs[nphi:] {
+		ex.curIns = ins
 		ex.steps++
 		if ex.steps > ex.maxSteps {
 			if ex.unwindIsViolation && ex.specDepth == 0 {
@@ -1597,6 +1605,9 @@ func (ex *Exec) tryMerge(fr *Frame, b *ssa.BasicBlock, x *ssa.If, c *Term) (next
 			if !okm {
 				return ex.mergeFail(x, 11)
 			}
+			if debugMerge {
+				fmt.Fprintf(os.Stderr, "merge phi %s: ia=%d ib=%d va=%v vb=%v c=%v -> %v\n", phi.Name(), ia, ib, va, vb, c, m)
+			}
 			phiVals = append(phiVals, m)
 		}
 	} else {
@@ -1606,6 +1617,33 @@ func (ex *Exec) tryMerge(fr *Frame, b *ssa.BasicBlock, x *ssa.If, c *Term) (next
 		}
 		ret = m
 	}
+	// Registers that were live before the If and were re-assigned inside an arm: an arm that goes
+	// round a loop re-assigns the loop header's phis (and whatever the body defines), and a join that
+	// those definitions dominate reads them directly, without a phi of its own. (A register that the
+	// join can read without a phi is defined before the If: its block dominates the join, and nothing
+	// strictly between the If and its immediate post-dominator post-dominates the If.)
+	type regMerge struct {
+		k int
+		v Value
+	}
+	var regs []regMerge
+	if join != nil {
+		pre := fr.env
+		for k := range pre {
+			if pre[k] == nil || k >= len(a.env) || k >= len(bb.env) {
+				continue
+			}
+			va, vb := a.env[k], bb.env[k]
+			if sameValue(va, pre[k]) && sameValue(vb, pre[k]) {
+				continue
+			}
+			m, okm := ex.merge(c, va, vb)
+			if !okm {
+				return ex.mergeFail(x, 13)
+			}
+			regs = append(regs, regMerge{k, m})
+		}
+	}
 	// commit
 	for o, v := range merged {
 		ex.memSet(o, v)
@@ -1614,12 +1652,26 @@ func (ex *Exec) tryMerge(fr *Frame, b *ssa.BasicBlock, x *ssa.If, c *Term) (next
 	if join == nil {
 		return nil, ret, true, true
 	}
+	for _, r := range regs {
+		fr.env[r.k] = r.v
+	}
 	for i, v := range phiVals {
 		ex.set(fr, join.Instrs[i].(*ssa.Phi), v)
 	}
 	fr.phiDone = join
 	fr.mergedFrom = b
 	return join, nil, false, true
+}
+
+// sameValue: identical values (pointer identity for terms and heap cells; values of types that do
+// not support == count as different)
+func sameValue(a, b Value) (same bool) {
+	defer func() {
+		if recover() != nil {
+			same = false
+		}
+	}()
+	return a == b
 }
 
 func (ex *Exec) mergeFail(x *ssa.If, why int) (*ssa.BasicBlock, Value, bool, bool) {
